@@ -29,7 +29,7 @@ pub fn def() -> PropDef {
     PropDef {
         id: "C03",
         level: "exploration",
-        rule: "cases = (byte string, parser option set, source kind, API call or call history). byte strings: EVERY string of length <= 2 over all 256 bytes and every string of length 3 over a 52-byte significant alphabet (exhaustive for those sub-spaces), against {default, elisp, all-on} + sampled option sets (thorough: all 1536 for length 3); token soup, mutated printer output and UTF-8 corruption up to 4 KiB against random option sets; pathological nests (each opener kind and period-2/3 mixtures at depths 100..5000 in-process with the depth gauge, 10^6 in child processes on a 2 MiB stack); long digit/exponent strings; call histories that keep calling one parser after errors (up to 300 calls). non-trivial = one parse call observed by the panic/fuel/depth/budget monitors; distinct = hash of (input, options, source, api)",
+        rule: "cases = (byte string, parser option set, source kind, API call or call history). byte strings: EVERY string of length <= 2 over all 256 bytes and every string of length 3 over a 52-byte significant alphabet (exhaustive for those sub-spaces), against {default, elisp, all-on} + sampled option sets (thorough: all 1536 for length 3); token soup, mutated printer output and UTF-8 corruption up to 4 KiB against random option sets; pathological nests (each opener kind and period-2/3 mixtures at depths 100..5000 in-process with the depth gauge, 10^6 in child processes on a 2 MiB stack); 16 un-nested units (comment lines, blank lines, small datums) repeated 250 000 (quick) / 10^6 (thorough) times at top level and inside one list, in child processes on a 2 MiB stack; long digit/exponent strings, exponents whose sum with the implied exponent lands within 3 of the i32 limits; call histories that keep calling one parser after errors (up to 300 calls). non-trivial = one parse call observed by the panic/fuel/depth/budget monitors; distinct = hash of (input, options, source, api)",
         assumptions: &[
             "the hooks tick at least once per loop iteration of every input-scanning loop (placed in all Read::next/peek impls and the three slice scanners)",
             "a child killed by SIGSEGV, or SIGABRT with 'has overflowed its stack', is a stack overflow",
@@ -357,6 +357,121 @@ pub fn child(args: &[String]) -> i32 {
     }
 }
 
+/// Units repeated 10^6 times with NO nesting: trivia and small datums at top
+/// level (read item by item) or inside one list. Stack use must not grow with
+/// the number of repetitions.
+pub const FLAT_UNITS: &[(&str, &str)] = &[
+    ("comment-lines", ";x\n"),
+    ("empty-comment-lines", ";\n"),
+    ("blank-lines", "\n"),
+    ("spaces", " "),
+    ("crlf-tab", "\r\n\t"),
+    ("form-feeds", "\x0C"),
+    ("comment-then-atom", ";c\na "),
+    ("atoms", "a "),
+    ("numbers", "1 "),
+    ("strings", "\"s\" "),
+    ("empty-lists", "() "),
+    ("quoted", "'a "),
+    ("keywords", "#:k "),
+    ("chars", "#\\a "),
+    ("empty-vectors", "#() "),
+    ("byte-vectors", "#u8(1) "),
+];
+
+/// `vcheck child c03-flat <unit> <reps> <shape> <api> <src>`
+pub fn child_flat(args: &[String]) -> i32 {
+    let unit = FLAT_UNITS[args[0].parse::<usize>().unwrap()].1;
+    let reps: usize = args[1].parse().unwrap();
+    let shape = args[2].clone();
+    let api = args[3].clone();
+    let src = args[4].clone();
+    let mut text = String::with_capacity(unit.len() * reps + 8);
+    if shape == "in-list" {
+        text.push('(');
+    }
+    for _ in 0..reps {
+        text.push_str(unit);
+    }
+    if shape == "in-list" {
+        text.push(')');
+    } else {
+        text.push_str("end");
+    }
+    let h = std::thread::Builder::new()
+        .stack_size(2 * 1024 * 1024)
+        .spawn(move || {
+            let o = Q::default_().to_lexpr();
+            let mut items = 0u64;
+            let mut errs = 0u64;
+            macro_rules! drain {
+                ($p:expr) => {{
+                    let mut p = $p;
+                    loop {
+                        let r = if api == "datum" { p.next_datum().map(|d| d.map(|d| std::mem::forget(d))) } else { p.next_value().map(|v| v.map(|v| std::mem::forget(v))) };
+                        match r {
+                            Ok(Some(())) => items += 1,
+                            Ok(None) => break,
+                            Err(_) => {
+                                errs += 1;
+                                if errs > 3 {
+                                    break;
+                                }
+                            }
+                        }
+                        if items > 3_000_000 {
+                            break;
+                        }
+                    }
+                }};
+            }
+            match src.as_str() {
+                "str" => drain!(Parser::from_str_custom(&text, o)),
+                "slice" => drain!(Parser::from_slice_custom(text.as_bytes(), o)),
+                _ => drain!(Parser::from_reader_custom(text.as_bytes(), o)),
+            }
+            println!("RESULT items={} errors={}", items, errs);
+        })
+        .unwrap();
+    match h.join() {
+        Ok(()) => 0,
+        Err(_) => 3,
+    }
+}
+
+fn flat_case(rep: &mut Report, unit: usize, case: u64, big: usize) {
+    let (name, _) = FLAT_UNITS[unit];
+    let me = std::env::current_exe().unwrap().to_string_lossy().to_string();
+    let mut bins = vec![("mon", me)];
+    if let Ok(d) = std::env::var("VH_DEV_BIN") {
+        if !d.is_empty() {
+            bins.push(("dev", d));
+        }
+    }
+    let combos = [("top-level", "value", "str"), ("top-level", "datum", "reader"), ("in-list", "value", "reader"), ("in-list", "datum", "slice"), ("top-level", "value", "slice"), ("in-list", "value", "str")];
+    let (shape, api, src) = combos[(case as usize) % combos.len()];
+    // the datum API on slice/str input computes positions in O(offset): keep that combination small enough to finish
+    let reps: usize = if api == "datum" && src != "reader" { 30_000 } else { big };
+    for (label, bin) in bins {
+        let args: Vec<String> = vec!["child".into(), "c03-flat".into(), unit.to_string(), reps.to_string(), shape.into(), api.into(), src.into()];
+        let r = child::run(&bin, &args, Duration::from_secs(600));
+        rep.eval();
+        rep.count("flat-child:ran");
+        rep.distinct(hash2(hash_bytes(name.as_bytes()), hash2(case, label.len() as u64 + 100)));
+        match &r.exit {
+            Exit::Code(0) if r.stdout.contains("RESULT items=") => rep.count("flat-child:completed"),
+            _ if r.stack_overflow() => rep.violation(
+                "stack-overflow",
+                format!("C03:stack-overflow:flat:{}", name),
+                format!("{} x {} ({}, {} api, {} source, {} build, 2 MiB thread): process died of stack overflow although nothing is nested ({:?}; {})", name, reps, shape, api, src, label, r.exit, r.stderr_tail.lines().last().unwrap_or("")),
+                json!({"unit": name, "shape": shape, "api": api, "src": src, "build": label, "reps": reps}),
+            ),
+            Exit::Timeout => rep.inconclusive(format!("child watchdog fired for flat {} {} {} {}", name, shape, api, src)),
+            other => rep.inconclusive(format!("flat child for {} {} {} {} ended unexpectedly: {:?} {}", name, shape, api, src, other, r.stderr_tail)),
+        }
+    }
+}
+
 fn child_case(rep: &mut Report, kind: usize, case: u64) {
     let (name, _, _) = OPENERS[kind];
     let me = std::env::current_exe().unwrap().to_string_lossy().to_string();
@@ -510,7 +625,23 @@ pub fn sets(ctx: &Ctx) -> Vec<CaseSet> {
                     // numbers with very many digits / exponent digits
                     let n = rng.range(1, 3000);
                     let d: String = (0..n).map(|_| (b'0' + rng.below(10) as u8) as char).collect();
-                    let s = match rng.below(5) {
+                    let s = match rng.below(7) {
+                        5 | 6 => {
+                            // written exponent + the exponent implied by the digits lands on or
+                            // next to the limits of i32 (where abs/negation/addition overflow)
+                            let ip = &d[..d.len().min(rng.range(1, 24))];
+                            let fp: String = (0..rng.range(0, 24)).map(|_| (b'0' + rng.below(10) as u8) as char).collect();
+                            let delta = rng.below(7) as i64 - 3;
+                            let neg = rng.bool();
+                            let implied = if neg { fp.len() as i64 } else { 0 };
+                            let written = if neg { 2147483648i64 - implied + delta } else { 2147483647i64 + delta };
+                            let sign = *rng.pick(&["", "-", "+"]);
+                            if fp.is_empty() {
+                                format!("{}{}e{}{}", sign, ip, if neg { "-" } else { "" }, written)
+                            } else {
+                                format!("{}{}.{}e{}{}", sign, ip, fp, if neg { "-" } else { "" }, written)
+                            }
+                        }
                         0 => d,
                         1 => format!("1e{}", d),
                         2 => format!("1e-{}", d),
@@ -583,6 +714,16 @@ pub fn sets(ctx: &Ctx) -> Vec<CaseSet> {
         Box::new(move |rep, _rng, case| {
             let kind = (case as usize) % OPENERS.len();
             child_case(rep, kind, case / OPENERS.len() as u64 + kind as u64);
+        }),
+    ));
+    // ---- 10^6 repetitions of un-nested units (comment lines, blanks, small datums)
+    let n_flat = if thorough { FLAT_UNITS.len() * 6 } else { FLAT_UNITS.len() };
+    out.push(CaseSet::new(
+        "million-flat-repetitions-children",
+        n_flat as u64,
+        Box::new(move |rep, _rng, case| {
+            let unit = (case as usize) % FLAT_UNITS.len();
+            flat_case(rep, unit, case / FLAT_UNITS.len() as u64 + unit as u64, if thorough { 1_000_000 } else { 250_000 });
         }),
     ));
     out
